@@ -13,9 +13,12 @@ Four monitors, all on the REAL DataManager / FileManager / YamlInterface writing
           under `strace -f -P <files> -e inject=<syscall>:signal=KILL|error=E:when=K` for EVERY syscall of
           the v2 save that touches the temp file or the target.  Oracle: target is exactly v1 or v2 at the
           kill; after an injected error the target is still complete and v3 is written.
-  reboot  a real MachineController (VMachine) whose machine_vars DataManager is the real one: generated
-          set/configure timelines, shutdown, second boot after a generated downtime.  Oracle: file == last
-          save_all argument; persistent variables reload equal unless expired.
+  reboot  a real MachineController (VMachine) whose machine_vars DataManager is the real one: up to three
+          power cycles of generated set/configure timelines (incl. re-sets to the SAME value, and the owner
+          re-arming an expiring variable right after the load), shutdown, next boot after a generated
+          downtime.  Oracle: file == last save_all argument; saved entry (value AND expire) == what the last
+          set implies (expire = time of last set + expire_secs); variables reload equal unless the saved /
+          the refreshed expiry has passed.
   real    the same classes with NOTHING virtual: real time.sleep, real GIL preemption, shrunk min_wait_secs,
           several managers, a polling watcher.  A wall-clock watchdog there yields *inconclusive* only.
 """
@@ -57,7 +60,8 @@ ASSUMPTIONS = [
     "whatever order results is judged by the same oracle",
     "machine variables: the persist flag / expire_secs are configured before the variable's last set (documented usage); "
     "values compare with Python == (1 == True == 1.0), NaN equals NaN; expiry within 1 ms of the boot time may go either way; "
-    "only the first reboot is judged (expire_secs is not re-armed by a reload)",
+    "a reloaded variable is persistent without expiry until its owner configures expire_secs again (mpf's documented "
+    "reload behaviour); from then on its expiry is judged again",
     "virtual horizon after the last operation: 60 s + 40 x min_wait_secs + 3 x injected delays (the writer's own waits are "
     "min_wait_secs, a 1 s poll and 0.2 s busy polls)",
     "real mode: wall-clock watchdog (30 s) => the case is inconclusive, never a violation; the interpreter's GIL switch "
@@ -71,13 +75,13 @@ TIERS = {
 }
 MIN_EVALS = {
     "quick": {"history": 4000, "shutdown_durability": 1000, "write_failure": 200, "crash_atomicity": 80,
-              "error_atomicity": 130, "error_then_later_save": 130, "reboot_file": 50, "reboot_equal": 150,
-              "reboot_expiry": 25},
+              "error_atomicity": 130, "error_then_later_save": 130, "reboot_file": 80, "reboot_equal": 200,
+              "reboot_expiry": 60, "reboot_saved_state": 60},
     "thorough": {"history": 80000, "shutdown_durability": 20000, "write_failure": 4000, "crash_atomicity": 600,
-                 "error_atomicity": 1000, "error_then_later_save": 1000, "reboot_file": 800, "reboot_equal": 2400,
-                 "reboot_expiry": 400},
+                 "error_atomicity": 1000, "error_then_later_save": 1000, "reboot_file": 1500, "reboot_equal": 4000,
+                 "reboot_expiry": 1200, "reboot_saved_state": 1200},
 }
-SHRINK_KEYS = ["delays", "ops"]
+SHRINK_KEYS = ["delays", "ops2", "ops"]
 
 # position inside a batch -> mode (so that the expensive modes are spread over all workers)
 _LAYOUT = {"quick": {"crash": 3, "real": 3, "reboot": 8}, "thorough": {"crash": 6, "real": 15, "reboot": 40}}
@@ -204,11 +208,20 @@ def _real_body(rng, V):
 def _gen_reboot(rng):
     from vlib import c15_values as V
     names = ["mv_a", "mv_b", "mv_c", "mv_d"]
+    expiring = []
+
+    def cfg_set(ops, name, persist=True, e="pick"):
+        if e == "pick":
+            e = rng.choice([None, None, 5, 60, 3600])
+        ops.append({"op": "cfg", "name": name, "persist": persist, "expire_secs": e})
+        ops.append({"op": "set", "name": name, "value": V.gen_value(rng)})
+        if persist and e and name not in expiring:
+            expiring.append(name)
+        return e
+
     ops = []
     if rng.random() < 0.8:
-        first = rng.choice(names)
-        ops.append({"op": "cfg", "name": first, "persist": True, "expire_secs": rng.choice([None, None, 5, 60, 3600])})
-        ops.append({"op": "set", "name": first, "value": V.gen_value(rng)})
+        cfg_set(ops, rng.choice(names), True, rng.choice([None, 5, 60, 3600, 3600]))
         if rng.random() < 0.5:
             ops.append({"op": "adv", "dt": rng.choice([0.3, 1.0, 1.5, 2.5])})
     if rng.random() < 0.5:
@@ -216,19 +229,50 @@ def _gen_reboot(rng):
     for _ in range(rng.choice([1, 2, 4, 8])):
         k = rng.random()
         name = rng.choice(names)
-        if k < 0.55:
-            v = V.gen_value(rng)
-            ops.append({"op": "set", "name": name, "value": v})
-        elif k < 0.75:
-            ops.append({"op": "cfg", "name": name, "persist": rng.random() < 0.8,
-                        "expire_secs": rng.choice([None, None, 5, 60, 3600])})
+        if k < 0.45:
             ops.append({"op": "set", "name": name, "value": V.gen_value(rng)})
+        elif k < 0.65:
+            cfg_set(ops, name, rng.random() < 0.8)
+        elif k < 0.8:
+            # the owner sets the variable again to the value it already has (credits mode does on every start)
+            ops.append({"op": "adv", "dt": rng.choice([0.5, 2.0, 7.0, 30.0, 100.0])})
+            ops.append({"op": "reset", "name": rng.choice(expiring) if expiring and rng.random() < 0.8 else name})
+            if rng.random() < 0.4:
+                ops.append({"op": "adv", "dt": rng.choice([1.5, 3.0])})
+                cfg_set(ops, rng.choice(names), True, None)
         else:
             ops.append({"op": "adv", "dt": rng.choice([0.0, 0.3, 0.9999, 1.0, 1.0001, 2.5, 30.0])})
     ops.append({"op": "adv", "dt": rng.choice([0.0, 0.0, 1e-3, 0.5, 0.9999, 1.0, 1.0001, 1.5, 2.5, 5.0])})
-    return {"mode": "reboot", "ops": ops, "downtime": rng.choice([0.0, 1.0, 4.0, 59.0, 61.0, 3000.0, 4000.0, 1e6]),
-            "config_vars": any(o.get("name", "").startswith("cfg_") for o in ops) or rng.random() < 0.3,
-            "third_boot": rng.random() < 0.4}
+    case = {"mode": "reboot", "ops": ops,
+            "downtime": rng.choice([0.0, 1.0, 4.0, 6.0, 59.0, 61.0, 3000.0, 3590.0, 3610.0, 4000.0, 1e6]),
+            "config_vars": any(o.get("name", "").startswith("cfg_") for o in ops) or rng.random() < 0.3}
+    # ---- second power cycle
+    if rng.random() < 0.6:
+        ops2 = []
+        if expiring and rng.random() < 0.8:
+            # right after the load the owner re-arms its variable: configure + set to the reloaded value
+            for name in rng.sample(expiring, rng.randint(1, len(expiring))):
+                if rng.random() < 0.3:
+                    ops2.append({"op": "adv", "dt": rng.choice([0.0, 0.5, 2.0])})
+                ops2.append({"op": "cfg", "name": name, "persist": True, "expire_secs": rng.choice([5, 60, 3600])})
+                ops2.append({"op": "reset", "name": name})
+        for _ in range(rng.choice([0, 0, 1, 2])):
+            k = rng.random()
+            if k < 0.4:
+                ops2.append({"op": "adv", "dt": rng.choice([0.5, 1.5, 3.0, 20.0])})
+            elif k < 0.7:
+                ops2.append({"op": "reset", "name": rng.choice(expiring or names)})
+            else:
+                cfg_set(ops2, rng.choice(names + ["mv_trigger"]), True, rng.choice([None, None, 60]))
+        if rng.random() < 0.35:
+            # some other persistent variable changes afterwards (that rewrites the whole persistent set)
+            ops2.append({"op": "adv", "dt": rng.choice([0.0, 1.5, 3.0])})
+            ops2.append({"op": "cfg", "name": "mv_trigger", "persist": True, "expire_secs": None})
+            ops2.append({"op": "set", "name": "mv_trigger", "value": rng.randrange(1, 1000)})
+        ops2.append({"op": "adv", "dt": rng.choice([0.0, 0.5, 1.0001, 2.5, 5.0])})
+        case["ops2"] = ops2
+        case["downtime2"] = rng.choice([0.0, 1.0, 4.0, 6.0, 59.0, 61.0, 3000.0, 3590.0, 3610.0, 4000.0, 1e6])
+    return case
 
 
 # =============================================================================================
@@ -616,7 +660,11 @@ _CFG_VARS = {"cfg_int": {"initial_value": 5, "value_type": "int", "persist": Tru
 
 
 def _run_reboot(case):
+    """Up to three boots of a real MachineController whose machine_vars DataManager is the real one.
+    boot k: [reload oracle against what boot k-1 left] -> generated ops -> real shutdown ->
+            file == last save_all argument -> clear-case model cross-check (value AND expire)."""
     import copy
+    import datetime
     import shutil
     import tempfile
     from vlib import c15_values as V
@@ -629,15 +677,16 @@ def _run_reboot(case):
     from mpf.tests.MpfTestCase import TestMachineController
     from mpf.tests.loop import TestClock
 
-    clauses = {"reboot_file": 0, "reboot_equal": 0, "reboot_expiry": 0, "history": 0}
-    obs = {"reboot_cases": 1, "boots": 0, "mv_sets": 0, "mv_save_all_calls": 0, "expired_entries": 0,
-           "unexpired_entries": 0, "borderline_expiry_skipped": 0, "model_judged_vars": 0, "watchdog_inconclusive": 0}
+    clauses = {"reboot_file": 0, "reboot_equal": 0, "reboot_expiry": 0, "reboot_saved_state": 0, "history": 0}
+    obs = {"reboot_cases": 1, "boots": 0, "mv_sets": 0, "mv_same_value_resets": 0, "mv_save_all_calls": 0,
+           "expired_entries": 0, "unexpired_entries": 0, "borderline_expiry_skipped": 0, "model_judged_vars": 0,
+           "model_expiry_reload_checks": 0, "watchdog_inconclusive": 0}
     viol = []
     root = tempfile.mkdtemp(prefix="c15-m-")
     path = os.path.join(root, "persist", "machine_vars.yaml")
     sched = Sched(tie_seed=0)
     offset = [0.0]
-    handed = []          # every save_all argument (deep copy), in order
+    handed = []          # every save_all argument (deep copy), in order, over all boots
     load_times = []
     orig = {"cdm": TestMachineController.__dict__["create_data_manager"], "gdt": TestClock.__dict__["get_datetime"],
             "save_all": dm_mod.DataManager.__dict__["save_all"],
@@ -649,7 +698,7 @@ def _run_reboot(case):
         return orig["cdm"](self, name)
 
     def get_datetime(self):
-        return orig["gdt"](self) + __import__("datetime").timedelta(seconds=offset[0])
+        return orig["gdt"](self) + datetime.timedelta(seconds=offset[0])
 
     def save_all(self, data):
         if getattr(self, "filename", None) == path:
@@ -660,77 +709,85 @@ def _run_reboot(case):
         load_times.append(current_time)
         return orig["load"](self, dm, current_time)
 
+    use_cfg = bool(case.get("config_vars"))
     cfg = {"mpf": {"paths": {"machine_vars": path}}}
-    if case.get("config_vars"):
+    if use_cfg:
         cfg["machine_vars"] = copy.deepcopy(_CFG_VARS)
-    ops = [o for o in case.get("ops", []) if isinstance(o, dict) and "op" in o]
-    model = {}           # name -> dict(value, persist, expire_secs, expiry, judged)
+    boots_ops = [[o for o in case.get("ops", []) if isinstance(o, dict) and "op" in o]]
+    ops2 = [o for o in (case.get("ops2") or []) if isinstance(o, dict) and "op" in o]
+    if case.get("third_boot") and not any(o.get("name") == "mv_trigger" for o in ops2):
+        # legacy form: something else is saved during boot 2
+        ops2 = ops2 + [{"op": "cfg", "name": "mv_trigger", "persist": True, "expire_secs": None},
+                       {"op": "set", "name": "mv_trigger", "value": 1}, {"op": "adv", "dt": 2.5}]
+    three = bool(case.get("third_boot")) or bool(case.get("ops2"))
+    boots_ops.append(ops2)
+    downtimes = [float(case.get("downtime", 0.0)), float(case.get("downtime2", 10.0))]
     shape_ops = ""
-    try:
-        fresh_process_state(fm_mod, yi_mod)
-        sched.install_shims([dm_mod, fm_mod, yi_mod])
-        TestMachineController.create_data_manager = create_data_manager
-        TestClock.get_datetime = get_datetime
-        dm_mod.DataManager.save_all = save_all
-        mv_mod.MachineVariables.load_machine_vars = load_machine_vars
 
-        # ------------------------------------------------------------------ boot 1
-        vm = VMachine(config=cfg)
-        obs["boots"] += 1
-        try:
-            mvars = vm.machine.variables
-            sched.advance(0.0)
+    def new_md(value=None, persist=False):
+        return {"value": value, "persist": persist, "expire_secs": None, "expiry": None, "judged": False,
+                "touched": False}
 
-            def now_ts():
-                return vm.machine.clock.get_datetime().timestamp()
-            for o in ops:
-                k = o["op"]
-                if k == "adv":
-                    dt = float(o.get("dt", 0))
-                    vm.advance(dt)
-                    sched.advance(dt)
-                    shape_ops += "a" + _bucket(dt)
-                elif k == "cfg":
-                    name = o["name"]
-                    e = o.get("expire_secs")
-                    mvars.configure_machine_var(name, persist=bool(o.get("persist")), expire_secs=e)
-                    md = model.setdefault(name, {"value": None, "persist": False, "expire_secs": None, "expiry": None,
-                                                 "judged": False})
-                    md.update(persist=bool(o.get("persist")), expire_secs=e, expiry=(now_ts() + e) if e else None,
-                              judged=False)
-                    shape_ops += "c" + ("p" if o.get("persist") else "n") + ("e" if e else "")
-                elif k == "set":
-                    name = o["name"]
+    def run_ops(vm, ops, model):
+        """Generated operations of one power cycle; the reference model follows the documented meaning."""
+        nonlocal shape_ops
+        mvars = vm.machine.variables
+
+        def now_ts():
+            return vm.machine.clock.get_datetime().timestamp()
+        for o in ops:
+            k = o["op"]
+            if k == "adv":
+                dt = float(o.get("dt", 0))
+                vm.advance(dt)
+                sched.advance(dt)
+                shape_ops += "a" + _bucket(dt)
+            elif k == "cfg":
+                name = o["name"]
+                e = o.get("expire_secs")
+                mvars.configure_machine_var(name, persist=bool(o.get("persist")), expire_secs=e)
+                md = model.setdefault(name, new_md())
+                md.update(persist=bool(o.get("persist")), expire_secs=e, expiry=(now_ts() + e) if e else None,
+                          judged=False, touched=True)
+                shape_ops += "c" + ("p" if o.get("persist") else "n") + ("e" if e else "")
+            elif k in ("set", "reset"):
+                name = o["name"]
+                if k == "reset":
+                    if not mvars.is_machine_var(name):
+                        continue
+                    val = copy.deepcopy(mvars.get_machine_var(name))       # set again to the SAME value
+                    obs["mv_same_value_resets"] += 1
+                else:
                     val = V.build(_no_sets(o.get("value")))
-                    md = model.setdefault(name, {"value": None, "persist": False, "expire_secs": None, "expiry": None,
-                                                 "judged": False})
-                    prev = mvars.get_machine_var(name)
-                    mvars.set_machine_var(name, copy.deepcopy(val))
-                    obs["mv_sets"] += 1
-                    changed = not V.loose_equal(prev, val)
-                    if isinstance(prev, (int, float)) and isinstance(val, (int, float)):
-                        try:        # "change" of a number is documented as the amount of the change
-                            changed = bool(val - prev)
-                        except (OverflowError, TypeError):
-                            pass
-                    md["value"] = val
-                    if md["expire_secs"]:
-                        md["expiry"] = now_ts() + md["expire_secs"]
-                    if md["persist"] and (changed or md["expire_secs"]) and val is not None:
-                        md["judged"] = True
-                    shape_ops += "s"
-            end_ts = now_ts()
-        finally:
-            vm.close()                      # real _do_stop(): posts shutdown, sets thread_stopper
+                md = model.setdefault(name, new_md())
+                prev = mvars.get_machine_var(name)
+                mvars.set_machine_var(name, copy.deepcopy(val))
+                obs["mv_sets"] += 1
+                changed = not V.loose_equal(prev, val)
+                if isinstance(prev, (int, float)) and isinstance(val, (int, float)):
+                    try:        # "change" of a number is documented as the amount of the change
+                        changed = bool(val - prev)
+                    except (OverflowError, TypeError):
+                        pass
+                md["value"] = val
+                md["touched"] = True
+                if md["expire_secs"]:
+                    md["expiry"] = now_ts() + md["expire_secs"]
+                if val is None:
+                    md["judged"] = False        # None and "absent" are the same to get_machine_var
+                elif md["persist"] and (changed or md["expire_secs"]):
+                    md["judged"] = True
+                shape_ops += "s" if k == "set" else "r"
+        return now_ts()
+
+    def settle_writers():
         t_end = sched.now + 200.0
         while not sched.all_done() and sched.now < t_end:
             sched.advance(0.5)
-        exited = sched.all_done()
-        obs["mv_save_all_calls"] = len(handed)
+        return sched.all_done()
 
-        # ------------------------------------------------------------------ file == last save_all argument
-        if not handed:
-            return {"violations": [], "clauses": clauses, "obs": obs, "shape": "M|nosave|" + shape_ops, "nontrivial": False}
+    def check_saved(boot_no, model, exited, final_gap):
+        """-> last handed dict if the file is exactly the last save_all argument, else None (violation added)."""
         last = handed[-1]
         raw = V.read_file(path)
         clauses["reboot_file"] += 1
@@ -740,18 +797,16 @@ def _run_reboot(case):
             sig = "C15:dirty_save_dropped_at_shutdown" if (exited and (older or raw is None)) else (
                 "C15:machine_vars_file_not_as_saved")
             viol.append({"clause": "reboot_file", "sig": sig, "detail": {
-                "on_disk": V.short(disk, 400), "last_save_all": V.short(last, 400), "writers_exited": exited,
-                "save_all_calls": len(handed), "on_disk_is_an_older_save": bool(older),
-                "final_gap_s": ops[-1].get("dt") if ops and ops[-1]["op"] == "adv" else None,
-                "threads": sched.describe()}})
-            return {"violations": viol, "clauses": clauses, "obs": obs, "shape": "M|lost|" + shape_ops,
-                    "nontrivial": True}
-        # ------------------------------------------------------------------ what was handed is what was set (clear cases)
+                "boot": boot_no, "on_disk": V.short(disk, 400), "last_save_all": V.short(last, 400),
+                "writers_exited": exited, "save_all_calls": len(handed), "on_disk_is_an_older_save": bool(older),
+                "final_gap_s": final_gap, "threads": sched.describe()}})
+            return None
+        # ---- the persistent state the machine held is what was handed over (clear cases): value AND expire
         for name, md in model.items():
             if not md["judged"]:
                 continue
             obs["model_judged_vars"] += 1
-            clauses["reboot_equal"] += 1
+            clauses["reboot_saved_state"] += 1
             ent = last.get(name) if isinstance(last, dict) else None
             bad = None
             if not isinstance(ent, dict) or "value" not in ent:
@@ -763,80 +818,138 @@ def _run_reboot(case):
             elif md["expiry"] is not None and abs(ent["expire"] - md["expiry"]) > 1e-3:
                 bad = "expiry time differs"
             if bad:
-                viol.append({"clause": "reboot_equal", "sig": "C15:persistent_var_not_saved_as_set", "detail": {
-                    "name": name, "problem": bad, "saved_entry": V.short(ent), "model": V.short(md)}})
+                sig = "C15:persistent_var_not_saved_as_set" if bad in ("not in the saved data", "saved value differs") \
+                    else "C15:refreshed_expiry_not_saved"
+                viol.append({"clause": "reboot_saved_state", "sig": sig, "detail": {
+                    "boot": boot_no, "name": name, "problem": bad, "saved_entry": V.short(ent),
+                    "in_memory_model": V.short({k: md[k] for k in ("value", "persist", "expire_secs", "expiry")}),
+                    "meaning": "expiry = time of the last set + expire_secs"}})
+        return last
 
-        # ------------------------------------------------------------------ boot 2 after the downtime
-        ct1 = load_times[0]
-        offset[0] = (end_ts - ct1) + float(case.get("downtime", 0.0))
-        # MpfTestCase switches a load cache on (YamlInterface.cache = True, production default is False):
-        # a reboot must read the file, not the cache
-        yi_mod.YamlInterface.file_cache.pop(path, None)
-        vm2 = VMachine(config=cfg)
-        obs["boots"] += 1
-        survivors, third = {}, False
-        try:
-            ct2 = load_times[-1]
-            mv2 = vm2.machine.variables
-            for name, ent in (last.items() if isinstance(last, dict) else []):
-                if not isinstance(ent, dict) or "value" not in ent:
-                    continue
-                exp = ent.get("expire")
-                is_cfg = bool(case.get("config_vars")) and name in _CFG_VARS
-                if exp and abs(exp - ct2) <= 1e-3:
-                    obs["borderline_expiry_skipped"] += 1
-                    continue
-                if exp and exp < ct2:
-                    obs["expired_entries"] += 1
-                    clauses["reboot_expiry"] += 1
-                    present = mv2.is_machine_var(name)
-                    if present and not is_cfg and mv2.get_machine_var(name) is not None:
-                        viol.append({"clause": "reboot_expiry", "sig": "C15:expired_var_reloaded", "detail": {
-                            "name": name, "expire": exp, "boot_time": ct2, "expired_for_s": ct2 - exp,
-                            "reloaded_value": V.short(mv2.get_machine_var(name))}})
-                    continue
-                obs["unexpired_entries"] += 1
-                clauses["reboot_equal"] += 1
-                if exp:
-                    clauses["reboot_expiry"] += 1
-                got = mv2.get_machine_var(name)
-                if not mv2.is_machine_var(name) or not V.loose_equal(got, ent["value"]):
-                    sig = "C15:unexpired_var_dropped" if (exp and not mv2.is_machine_var(name)) else \
-                        "C15:persistent_var_not_reloaded_equal"
-                    viol.append({"clause": "reboot_equal", "sig": sig, "detail": {
-                        "name": name, "saved": V.short(ent), "reloaded": V.short(got),
-                        "is_machine_var": mv2.is_machine_var(name), "boot_time": ct2, "expire": exp}})
-                elif not exp and name not in _CFG_VARS:
-                    survivors[name] = ent["value"]
-            if case.get("third_boot") and survivors and not viol:
-                # a variable that was persistent and reloaded stays persistent ("should be persisted again"):
-                # something else is saved during boot 2, then the machine is rebooted once more
-                mv2.configure_machine_var("mv_trigger", persist=True)
-                mv2.set_machine_var("mv_trigger", 1)
-                vm2.advance(2.5)
-                sched.advance(2.5)
-                third = True
-        finally:
-            vm2.close()
-        if third:
-            t_end = sched.now + 200.0
-            while not sched.all_done() and sched.now < t_end:
-                sched.advance(0.5)
-            offset[0] += 10.0
-            yi_mod.YamlInterface.file_cache.pop(path, None)
-            vm3 = VMachine(config=cfg)
+    def check_reload(boot_no, mv, ct, last, prev_model):
+        """Reload oracle of boot `boot_no` against the data boot_no-1 handed over (and its model's expiry)."""
+        survivors = {}
+        for name, ent in (last.items() if isinstance(last, dict) else []):
+            if not isinstance(ent, dict) or "value" not in ent:
+                continue
+            exp = ent.get("expire")
+            is_cfg = use_cfg and name in _CFG_VARS
+            if exp and abs(exp - ct) <= 1e-3:
+                obs["borderline_expiry_skipped"] += 1
+                continue
+            if exp and exp < ct:
+                obs["expired_entries"] += 1
+                clauses["reboot_expiry"] += 1
+                if mv.is_machine_var(name) and not is_cfg and mv.get_machine_var(name) is not None:
+                    viol.append({"clause": "reboot_expiry", "sig": "C15:expired_var_reloaded", "detail": {
+                        "boot": boot_no, "name": name, "expire": exp, "boot_time": ct, "expired_for_s": ct - exp,
+                        "reloaded_value": V.short(mv.get_machine_var(name))}})
+                continue
+            obs["unexpired_entries"] += 1
+            clauses["reboot_equal"] += 1
+            if exp:
+                clauses["reboot_expiry"] += 1
+            got = mv.get_machine_var(name)
+            if not mv.is_machine_var(name) or not V.loose_equal(got, ent["value"]):
+                sig = "C15:unexpired_var_dropped" if (exp and not mv.is_machine_var(name)) else \
+                    "C15:persistent_var_not_reloaded_equal"
+                viol.append({"clause": "reboot_equal", "sig": sig, "detail": {
+                    "boot": boot_no, "name": name, "saved": V.short(ent), "reloaded": V.short(got),
+                    "is_machine_var": mv.is_machine_var(name), "boot_time": ct, "expire": exp}})
+            elif not exp and name not in _CFG_VARS:
+                survivors[name] = ent["value"]
+        # ---- the same against the REFRESHED expiry the machine held in memory (time of last set + expire_secs)
+        for name, md in prev_model.items():
+            if not md["judged"] or md["expiry"] is None or (use_cfg and name in _CFG_VARS):
+                continue
+            if abs(md["expiry"] - ct) <= 1e-3:
+                obs["borderline_expiry_skipped"] += 1
+                continue
+            obs["model_expiry_reload_checks"] += 1
+            clauses["reboot_expiry"] += 1
+            present = mv.is_machine_var(name) and mv.get_machine_var(name) is not None
+            if md["expiry"] < ct and present:
+                viol.append({"clause": "reboot_expiry", "sig": "C15:var_reloaded_after_refreshed_expiry", "detail": {
+                    "boot": boot_no, "name": name, "refreshed_expiry": md["expiry"], "boot_time": ct,
+                    "expired_for_s": ct - md["expiry"], "reloaded_value": V.short(mv.get_machine_var(name)),
+                    "file_entry": V.short(last.get(name) if isinstance(last, dict) else None)}})
+            elif md["expiry"] > ct and (not present or not V.loose_equal(mv.get_machine_var(name), md["value"])):
+                viol.append({"clause": "reboot_expiry", "sig": "C15:var_dropped_before_refreshed_expiry", "detail": {
+                    "boot": boot_no, "name": name, "refreshed_expiry": md["expiry"], "boot_time": ct,
+                    "remaining_s": md["expiry"] - ct, "reloaded_value": V.short(mv.get_machine_var(name)),
+                    "file_entry": V.short(last.get(name) if isinstance(last, dict) else None)}})
+        return survivors
+
+    evaluated_boots = 0
+    try:
+        fresh_process_state(fm_mod, yi_mod)
+        sched.install_shims([dm_mod, fm_mod, yi_mod])
+        TestMachineController.create_data_manager = create_data_manager
+        TestClock.get_datetime = get_datetime
+        dm_mod.DataManager.save_all = save_all
+        mv_mod.MachineVariables.load_machine_vars = load_machine_vars
+
+        last, prev_model, survivors, end_ts = None, {}, {}, None
+        n_boots = 3 if three else 2
+        for boot_no in range(1, n_boots + 1):
+            if boot_no > 1:
+                ct1 = load_times[0]
+                offset[0] = (end_ts - ct1) + downtimes[boot_no - 2]
+                # MpfTestCase switches a load cache on (YamlInterface.cache = True, production default is False):
+                # a reboot must read the file, not the cache
+                yi_mod.YamlInterface.file_cache.pop(path, None)
+            vm = VMachine(config=cfg)
             obs["boots"] += 1
+            model = {}
+            final_gap = None
             try:
-                mv3 = vm3.machine.variables
-                for name, val in survivors.items():
-                    clauses["reboot_equal"] += 1
-                    if not mv3.is_machine_var(name) or not V.loose_equal(mv3.get_machine_var(name), val):
-                        viol.append({"clause": "reboot_equal", "sig": "C15:reloaded_var_no_longer_persistent", "detail": {
-                            "name": name, "value_after_boot_2": V.short(val), "is_machine_var_after_boot_3":
-                            mv3.is_machine_var(name), "value_after_boot_3": V.short(mv3.get_machine_var(name)),
-                            "file_after_boot_2": V.short(handed[-1], 400)}})
+                mvars = vm.machine.variables
+                if boot_no > 1:
+                    ct = load_times[-1]
+                    new_surv = check_reload(boot_no, mvars, ct, last, prev_model)
+                    if boot_no == 3:
+                        # a variable that was persistent and reloaded stays persistent ("should be persisted
+                        # again"): untouched during boot 2, it is still there after the next reboot
+                        for name, val in survivors.items():
+                            clauses["reboot_equal"] += 1
+                            if not mvars.is_machine_var(name) or not V.loose_equal(mvars.get_machine_var(name), val):
+                                viol.append({"clause": "reboot_equal", "sig": "C15:reloaded_var_no_longer_persistent",
+                                             "detail": {"name": name, "value_after_boot_2": V.short(val),
+                                                        "is_machine_var_after_boot_3": mvars.is_machine_var(name),
+                                                        "value_after_boot_3": V.short(mvars.get_machine_var(name)),
+                                                        "file_after_boot_2": V.short(last, 400)}})
+                    survivors = new_surv
+                    # what the machine holds after the load: reloaded variables are persistent, without expire_secs
+                    for name, ent in (last.items() if isinstance(last, dict) else []):
+                        if isinstance(ent, dict) and "value" in ent and mvars.is_machine_var(name):
+                            per = _CFG_VARS[name]["persist"] if (use_cfg and name in _CFG_VARS) else True
+                            model[name] = new_md(mvars.get_machine_var(name), per)
+                if boot_no < 3:
+                    sched.advance(0.0)
+                    ops = boots_ops[boot_no - 1]
+                    end_ts = run_ops(vm, ops, model)
+                    if ops and ops[-1]["op"] == "adv":
+                        final_gap = ops[-1].get("dt")
+                    shape_ops += "|"
             finally:
-                vm3.close()
+                vm.close()                      # real _do_stop(): posts shutdown, sets thread_stopper
+            exited = settle_writers()
+            obs["mv_save_all_calls"] = len(handed)
+            if boot_no == 3:
+                break
+            if not handed:
+                return {"violations": [], "clauses": clauses, "obs": obs, "shape": "M|nosave|" + shape_ops,
+                        "nontrivial": False}
+            if any(v["sig"] != "C15:refreshed_expiry_not_saved" for v in viol):
+                break
+            last = check_saved(boot_no, model, exited, final_gap)
+            if last is None:
+                break
+            evaluated_boots += 1
+            survivors = {n: v for n, v in survivors.items() if not (n in model and model[n]["touched"])}
+            prev_model = model
+            if any(v["sig"] != "C15:refreshed_expiry_not_saved" for v in viol):
+                break       # (a stale expiry on disk is followed into the next boot: does the variable outlive it?)
     except Inconclusive:
         obs["watchdog_inconclusive"] += 1
         return {"violations": [], "clauses": {}, "obs": obs, "shape": "M|inconclusive", "nontrivial": False}
@@ -850,9 +963,9 @@ def _run_reboot(case):
         yi_mod.YamlInterface.file_cache.pop(path, None)
         shutil.rmtree(root, ignore_errors=True)
     return {"violations": _uniq(viol), "clauses": clauses, "obs": obs,
-            "shape": "M|%s|down=%s|cfg=%d" % (shape_ops, _bucket(float(case.get("downtime", 0)) / 100.0),
-                                              bool(case.get("config_vars"))),
-            "nontrivial": clauses["reboot_file"] > 0 and clauses["reboot_equal"] > 0}
+            "shape": "M|%s|down=%s,%s|cfg=%d|b%d" % (shape_ops, _bucket(downtimes[0] / 100.0),
+                                                     _bucket(downtimes[1] / 100.0), use_cfg, 3 if three else 2),
+            "nontrivial": clauses["reboot_file"] > 0 and (clauses["reboot_equal"] > 0 or bool(viol))}
 
 
 def _run_real(case):
